@@ -8,7 +8,85 @@ CHECKS = {
             "model-based PBT: generated publish histories vs independent reference model (own blake3 formulas + from-scratch trie), proptest with shrinking",
             "Generated multi-epoch publish histories (inserts, updates, re-submissions, repeated labels, empty/long labels and values, several VRF keys, cached/uncached, parallel/sequential insertion) are executed on the real Directory under both configurations and compared after every publish with an independent model of epoch number and root hash. Held on everything generated; no absence claim.",
             "Trusted: the ECVRF core shared by model and implementation (attacked separately in C18); blake3; the harness's own model."),
+    "C02": ("exploration", "DESIGN.md §5 C02",
+            "model-based PBT: every lookup / batch lookup after every epoch verified with the real client verifier and compared with the model's (value, version, epoch)",
+            "After every state-changing publish of a generated history every pool label (published or not) is looked up singly and in generated batches, through Directory and a fresh ReadOnlyDirectory; proofs are verified against the MODEL's root and must yield the model's latest state; unpublished labels must fail.",
+            "Trusted: model (as C01); the client verifier lookup_verify is the unit under test together with the prover."),
+    "C03": ("exploration", "DESIGN.md §5 C03",
+            "model-based PBT over histories x HistoryParams (Complete, MostRecent N below/at/above the version count)",
+            "For every published label after every epoch, Complete and MostRecent(N) histories are requested, verified with the same parameter against the model root, and compared with the model's newest-first version list.",
+            "Trusted: model (as C01)."),
+    "C04": ("exploration", "DESIGN.md §5 C04",
+            "model-based PBT: all epoch pairs of generated histories audited against the model's root hashes",
+            "For generated histories all pairs 0<=s<e<=current are audited at the end (so most ranges end before the latest epoch), plus the newest step and the full range after every epoch and 9 invalid requests; audit_verify is fed the MODEL's roots.",
+            "Trusted: model roots; audit_verify (whose soundness is C09's subject)."),
+    "C05": ("exploration", "DESIGN.md §5 C05",
+            "PBT with an adversarial prover: constructed prefix-sharing leaf sets, every ancestor as anchor, 15+ mutations; soundness/completeness oracle = the leaf set + from-scratch model trie",
+            "Leaf sets built to share prefixes of every length are inserted over 1-3 epochs; for members, bit-flipped non-members and random labels the honest proofs, a non-membership proof anchored at every path node, a membership proof of every path node, many mutations and previous-epoch material are verified; an accepted membership statement must be a true node, an accepted non-membership statement must be for a non-member with the deepest anchor.",
+            "Adversary is structural (recombines real tree material); hash collisions out of scope. Ground truth from the harness's model trie."),
+    "C06": ("exploration", "DESIGN.md §5 C06",
+            "PBT with an adversarial lookup-proof builder holding the VRF key; single soundness oracle against the model's latest state",
+            "On honest generated histories, lookup proofs for every superseded version (freshness proof anchored at every depth), altered fields, other labels' leaves, other epochs' material and field swaps are assembled and verified; an accepted proof must report the model's latest (value, version, epoch).",
+            "Structural adversary with the secret key; no VRF forgery / collisions."),
+    "C07": ("exploration", "DESIGN.md §5 C07",
+            "PBT with an adversarial history-proof builder + dishonest trees (missing / late stale markers) built through the public API",
+            "Truncations (with forged absence proofs at every anchor depth), gaps, duplicates, reorderings, substituted values/epochs, omitted/surplus/swapped marker proofs, cross-parameter verification and tombstones under both verifier modes; an accepted proof must equal the model's version list for the parameter; trees with a missing/late stale marker must make history verification of that label fail.",
+            "Structural adversary with the secret key."),
+    "C08": ("exploration", "DESIGN.md §5 C08",
+            "bounded-exhaustive enumeration of (epoch, version pair, range) marker-set intersections + random u64 sampling + replay of pairs on real dishonest trees with the real verifiers",
+            "All E<=48 (thorough 96), n!=m, admitted ranges are enumerated for history x history and complete-history x lookup; the absent/retired set of one proof must intersect the present/not-retired set of the other; sampled and all failing pairs are replayed on a real tree built by a dishonest server and handed to key_history_verify / lookup_verify.",
+            "What a proof 'shows' is derived from the verifier code and cross-checked on real trees; one protocol-level known finding (history(n) x lookup(m>n)) is excluded by a frozen reference signature."),
+    "C09": ("exploration", "DESIGN.md §5 C09",
+            "PBT with adversarial append-only proofs assembled from nodes of honest and dishonest trees; end hash chosen by the adversary (the auditor's own reconstruction); survival-analysis oracle",
+            "For generated start sets and honest/dishonest end sets, honest frontiers (control), shadowing leaves, hidden replacements, node+descendant, duplicates, garbage label bits, root-as-element, dishonest frontiers and moved/dropped elements are verified under three end-hash choices; if accepted, every start leaf must still be committed unchanged by the end structure; overlapping node sets, inconsistent list lengths and any altered root hash must be rejected.",
+            "Ground truth by walking the reconstructed end tree and matching nodes of known model tries; structural adversary."),
+    "C10": ("fault_enumeration", "DESIGN.md §5 C10",
+            "fault injection: for generated histories EVERY storage-operation index of the targeted publish is failed in turn (single fault and outage) via a Database wrapper; oracle = model + database snapshot equality + retry",
+            "For each generated short history and manager/parallelism choice the operation count K of the targeted publish is measured, then each k<K is failed on a re-executed copy; the call must return Err, the same instance must report the previous epoch/hash with no open transaction and serve verifying proofs for the previous state, the database must equal its pre-publish snapshot at quiescence, and the retry must produce the model's next pair.",
+            "Faults are non-NotFound storage errors on the in-memory database; complete per targeted publish, sampled over histories."),
+    "C11": ("fault_enumeration", "DESIGN.md §5 C11",
+            "crash-point enumeration: the commit batch is captured and every prefix (two orders) + random subsets applied to a copy of the database; fresh reader instances compared with the model at the previous epoch",
+            "For generated histories the last publish's commit batch is captured; for every prefix in key order and reverse order and generated subsets of the non-epoch records, fresh Directory/ReadOnlyDirectory instances must report the previous epoch and serve lookups/histories/audits equal to the model at that epoch; with the epoch record applied everything equals the new epoch.",
+            "Record-level atomicity assumed (as the code documents); in-memory database."),
+    "C12": ("exploration", "DESIGN.md §5 C12",
+            "deterministic-schedule exploration: 2-3 concurrent publish futures polled by hand at storage-operation yield points; bounded-preemption enumeration + random schedules; oracle = sequential model replay",
+            "Each scenario's publishes run under all schedules with <=2 preemptions (thorough 3) plus generated random schedules; successful calls must have distinct consecutive epochs reproducible by replaying their batches on the model in epoch order, failed calls must leave no trace, audits must verify against the returned hashes.",
+            "Interleavings at storage-operation granularity with tree parallelism disabled; thread-level races only in the non-replayable stress mode."),
+    "C13": ("exploration", "DESIGN.md §5 C13",
+            "deterministic-schedule exploration of readers vs writer / poller / flush, plus lagging-instance scenarios; oracle = model at the epoch the reply names",
+            "Reader operations (lookup, batch lookup, history, audit, epoch hash) on the same instance, a clone and separate cached/uncached read-only instances are interleaved with 1-4 publishes, the change poller (virtual time) and flushes; every reply is Err or names a published (epoch, root) and verifies to the model's state at that epoch.",
+            "Same schedule granularity as C12."),
+    "C14": ("exploration", "DESIGN.md §5 C14",
+            "differential / metamorphic PBT: same history + query script under a cross product of parallelism, cache, restart and read-only configurations and TWO feature builds; transcripts must be identical",
+            "Canonical transcripts (epoch hashes, verification outcomes, verified results) of the same generated history are compared across parallelism options, cache kinds (incl. 2 ms lifetime with real pauses and a tiny memory limit), restart points, the read-only wrapper, both configurations, and the binaries built with and without preload/parallel-VRF features; permuted and split insertions must give the same tree.",
+            "Real-time pauses affect only hit/miss mix; multi-thread runtime for parallel insertion."),
+    "C15": ("exploration", "DESIGN.md §5 C15",
+            "stateful PBT (op sequences + interpreter) with a differential twin: every read compared with a shadow database holding committed ∪ pending; commit batches captured",
+            "Generated sequences of writes, all read kinds (all five user-state flags, bulk versions), begin/commit/rollback on cached and uncached managers; each read must equal the same read on a plain manager over a shadow database; commit must hand the database exactly the pending records with the epoch record last; rollback discards; nested begin refused.",
+            "Well-formed data only (versions increase with epochs; rewrites keep the version), as the property states."),
+    "C16": ("exploration", "DESIGN.md §5 C16",
+            "stateful PBT against a database mirror with real-time pauses, rejected writes, tiny memory limits and flushes; deterministic-schedule concurrency variant",
+            "Generated op sequences through one cached manager with generated lifetime / memory limit / clean frequency, writes the database rejects, transactions, flushes and real pauses; every read must equal the mirror of what the database accepted (or the pending value); concurrent variant: after quiescence every key read through the manager equals the database.",
+            "Timing only affects hit/miss counters in the evidence, never the verdict."),
+    "C17": ("exploration", "DESIGN.md §5 C17",
+            "exhaustive enumeration (all ordered pairs of labels <=10 bits, all small sets) + PBT over 0..256-bit labels at byte boundaries; oracle = Vec<bool> bit strings; sorted vs unsorted set operations via hooks",
+            "All 4.2M ordered pairs of labels of length 0..10 and all sets of <=3 labels of length <=4 are checked exhaustively; generated long labels/sets concentrate on byte boundaries and adversarial patterns; set partition / lcp / contains_prefix are evaluated as BinarySearchable and Unsorted through the verif_hooks wrappers.",
+            "Domain: normalised labels and the documented empty-label constants; documented precondition of partition respected."),
+    "C18": ("exploration", "DESIGN.md §5 C18",
+            "round-trip + metamorphic PBT over keys/labels/freshness/versions; full 640-bit single-flip sweep of proof bytes",
+            "For generated tuples the proof must verify and yield the node label the server uses (single, batch, repeated evaluation); altering exactly one input, or any bit of the proof, must fail or yield the same node label; different secrets must give different node labels, nonces and commitments.",
+            "RFC 9381 arithmetic itself trusted to curve25519-dalek; attacked only through the API."),
+    "C19": ("exploration", "DESIGN.md §5 C19",
+            "round-trip PBT on real proofs + mutation PBT on encodings + coverage-guided libFuzzer target (decode, re-encode, verify-equivalence oracle inside the target)",
+            "Real lookup/history/append-only proofs and components are converted to protobuf bytes and back (identity, same verification result); truncated, bit-flipped, spliced, field-deleted and arbitrary encodings must never panic and must decode to Err or to a proof whose verification is Err or equals the original's result; AuditBlob names and blobs likewise.",
+            "The wasm client's private functions are reproduced call for call."),
+    "C20": ("exploration", "DESIGN.md §5 C20",
+            "metamorphic PBT: the same history run with and without tombstoning, compared with each other and the model",
+            "Control and subject runs of a generated history (1-2 tombstone operations at generated points, labels, cut-offs, further publishes) must agree on every epoch hash, audit proof, the label's lookup and all other labels' proofs; the label's history verifies under AllowMissingValues with exactly the tombstoned values empty, and Default mode rejects exactly the histories containing a tombstoned entry.",
+            "Cut-off before the label's latest update, as the property states."),
 }
+
+DONE = ["C01", "C02", "C03", "C04", "C05", "C09", "C15", "C17", "C20"]
 
 NOT_YET = "check under construction in this session (see DESIGN.md §5); not claimed until it runs and is sensitivity-tested"
 
@@ -20,7 +98,7 @@ def main():
     hook_shas = [l.split()[0] for l in hooks_commits if "verif hooks" in l]
     checks = []
     for pid in ALL:
-        if pid not in CHECKS:
+        if pid not in DONE:
             continue
         cat, ref, tech, text, note = CHECKS[pid]
         checks.append({
@@ -34,7 +112,7 @@ def main():
             "level_note": note,
             "technique": tech,
         })
-    na = [{"property_id": p, "reason": NOT_YET} for p in ALL if p not in CHECKS]
+    na = [{"property_id": p, "reason": NOT_YET} for p in ALL if p not in DONE]
     m = {
         "version": 1,
         "setup_cmd": "./tools/setup.sh",
